@@ -948,6 +948,12 @@ Section Phases.
     Qed.
   End NoAlarm.
 
+  (* size and blocks of a file of the run state, 0 when the file is absent *)
+  Definition fsz (fs : list (option fsdisk)) (j : nat) (n : N) : N := match fs_find fs j n with Some g => ff_size g | None => 0%N end.
+  Definition fblk (fs : list (option fsdisk)) (j : nat) (n : N) (i : nat) : bid := match fs_find fs j n with Some g => nth i (ff_blocks g) 0%N | None => 0%N end.
+  Lemma same_data_fsz fs fs' j n : same_data (fs_find fs' j n) (fs_find fs j n) -> fsz fs' j n = fsz fs j n /\ forall i, fblk fs' j n i = fblk fs j n i.
+  Proof. unfold fsz, fblk. destruct (fs_find fs' j n), (fs_find fs j n); cbn; try tauto. intros [A B]. rewrite A, B. auto. Qed.
+
   (* ---- fix restores a stripe --------------------------------------------------------------------------------------------- *)
   Lemma hval_eqb_refl h : hval_eqb h h = true.
   Proof. destruct h; cbn; auto. apply N.eqb_refl. Qed.
@@ -1031,7 +1037,9 @@ Section Phases.
       exists j, f, idx, b. repeat split; auto; lia.
     Qed.
 
-    Theorem fix_step_restores :
+    (* the step with its frame: what it does at this stripe AND what it leaves alone (other stripes of the parity, other
+       files, the other blocks of the files of this stripe; a file grows at most to the end of the block written) *)
+    Theorem fix_step_full :
       let s' := stripe_step hashf padz truncf bs nlev reduced newino now o c fs0 s pos in
       (forall j f idx b, slot_of c pos j = SFile f idx b ->
          exists g, fs_find (r_fs s') j (cf_name f) = Some g /\ nth idx (ff_blocks g) 0%N = vnth v j
@@ -1039,7 +1047,15 @@ Section Phases.
       /\ (forall l, l < nlev -> par_matches v (prow (r_par s') pos l) = true)
       /\ r_unrec s' = r_unrec s
       /\ keeps_damaged s s'
-      /\ length (r_fs s') = length (r_fs s).
+      /\ length (r_fs s') = length (r_fs s)
+      /\ (forall l p, p <> pos -> nth p (nth l (r_par s') []) PNone = nth p (nth l (r_par s) []) PNone)
+      /\ length (r_par s') = length (r_par s)
+      /\ (forall j' n', (forall f idx b, slot_of c pos j' = SFile f idx b -> cf_name f <> n') ->
+                        same_data (fs_find (r_fs s') j' n') (fs_find (r_fs s) j' n'))
+      /\ (forall j f idx b, slot_of c pos j = SFile f idx b ->
+            (forall i, i <> idx -> fblk (r_fs s') j (cf_name f) i = fblk (r_fs s) j (cf_name f) i)
+            /\ (fsz (r_fs s) j (cf_name f) <= fsz (r_fs s') j (cf_name f))%N
+            /\ (fsz (r_fs s') j (cf_name f) <= N.max (fsz (r_fs s) j (cf_name f)) (N.of_nat idx * bs + block_len bs (cf_size f) idx))%N).
     Proof.
       pose proof (data_phase_inv o c pos s Hplain Hsync Hlenfs Hfile) as I.
       set (a := data_phase hashf bs newino now o c pos s) in *.
@@ -1116,39 +1132,51 @@ Section Phases.
       set (s8 := fold_left (file_post o c pos) (seq 0 n) s7) in *.
       destruct PO as [Q1 Q2 Q3 Q4 Q5 Q6].
       assert (Hfull : forall j, j < n -> vnth buf' j = vnth v j) by (intros j Hj; apply Hfl2; rewrite Hbuflen; exact Hj).
-      split; [|split; [|split; [|split]]].
-      - (* the data *)
-        intros j f idx b Es.
+      assert (Hs6all : forall j f idx b, slot_of c pos j = SFile f idx b ->
+        exists g, fs_find (r_fs s6) j (cf_name f) = Some g /\ nth idx (ff_blocks g) 0%N = vnth v j
+                  /\ (N.of_nat idx * bs + block_len bs (cf_size f) idx <= ff_size g)%N /\ (ff_size g <= cf_size f)%N
+                  /\ (forall i, i <> idx -> nth i (ff_blocks g) 0%N = fblk (r_fs s) j (cf_name f) i)
+                  /\ (fsz (r_fs s) j (cf_name f) <= ff_size g)%N
+                  /\ (ff_size g <= N.max (fsz (r_fs s) j (cf_name f)) (N.of_nat idx * bs + block_len bs (cf_size f) idx))%N).
+      { intros j f idx b Es.
         assert (Hj : j < n).
         { destruct (Nat.lt_ge_cases j n) as [H|H]; [exact H|]. rewrite slot_of_out in Es by exact H. discriminate. }
-        assert (Hs6 : exists g, fs_find (r_fs s6) j (cf_name f) = Some g /\ nth idx (ff_blocks g) 0%N = vnth v j
-                                /\ (N.of_nat idx * bs + block_len bs (cf_size f) idx <= ff_size g)%N /\ (ff_size g <= cf_size f)%N).
-        { destruct (is_bad c pos s j) eqn:Eb.
+        destruct (is_bad c pos s j) eqn:Eb.
           - assert (Hin : In (j, f, idx, b) es).
             { unfold es. apply in_flat_map. exists j. split; [apply in_seq; lia|]. rewrite Es, Eb. left. reflexivity. }
             destruct (Hpres _ Hin) as [_ [g Hg]]. cbn in Hg.
             rewrite (W7 j f idx b g Hin Hg).
-            destruct (write_block_spec g f idx (vnth buf' j)) as [_ [X2 [X3 [_ X5]]]].
-            assert (Hgs : (ff_size g <= cf_size f)%N).
+            destruct (write_block_spec g f idx (vnth buf' j)) as [_ [X2 [X3 [X4 X5]]]].
+            assert (Hgs : (ff_size g <= cf_size f)%N /\ ff_size g = fsz (r_fs s) j (cf_name f) /\ (forall i, nth i (ff_blocks g) 0%N = fblk (r_fs s) j (cf_name f) i)).
             { change (r_fs s5) with (r_fs (da_st a)) in Hg. rewrite Ifs in Hg.
               assert (E : (j <? n) = true) by (apply Nat.ltb_lt; exact Hj). fold n in Hg. rewrite E in Hg.
-              unfold fs_after in Hg. rewrite Es, Hfix, N.eqb_refl in Hg. cbn [andb] in Hg.
+              unfold fs_after in Hg. rewrite Es, Hfix, N.eqb_refl in Hg. cbn [andb] in Hg. unfold fsz, fblk.
               destruct (fs_find (r_fs s) j (cf_name f)) as [g0|] eqn:Eg0.
-              - injection Hg as Hg. subst g0. destruct (Hfile j f idx b Es) as [_ [Hsz _]]. apply Hsz. exact Eg0.
-              - injection Hg as Hg. subst g. cbn. lia. }
-            eexists. split; [reflexivity|]. split; [|split; [exact X2 | apply X5; [exact Hgs | apply (Hwf j f idx b Es)]]].
-            rewrite X3; [apply Hfull; exact Hj|]. rewrite Hfull by exact Hj. apply (Hpad j f idx b Es).
+              - injection Hg as Hg. subst g0. destruct (Hfile j f idx b Es) as [_ [Hsz _]]. split; [apply Hsz; exact Eg0 | auto].
+              - injection Hg as Hg. subst g. cbn. split; [lia|]. split; [reflexivity|]. intro i. destruct i; reflexivity. }
+            destruct Hgs as [Hgs [Hgz Hgb]].
+            eexists. split; [reflexivity|]. split; [|split; [exact X2 | split; [apply X5; [exact Hgs | apply (Hwf j f idx b Es)]|]]].
+            { rewrite X3; [apply Hfull; exact Hj|]. rewrite Hfull by exact Hj. apply (Hpad j f idx b Es). }
+            split; [intros i Hi; rewrite X4 by exact Hi; apply Hgb|].
+            rewrite <- Hgz. unfold write_block. cbn [ff_size].
+            destruct (ff_size g <? N.of_nat idx * bs + block_len bs (cf_size f) idx)%N eqn:El; [apply N.ltb_lt in El | apply N.ltb_ge in El]; lia.
           - unfold is_bad in Eb. rewrite Es in Eb.
             destruct (read_block bs s j f idx) as [y|] eqn:Er; [|discriminate].
             assert (Ey : y = vnth v j) by (apply (CFdata j f idx b y Es Er); destruct (hash_ok f idx b y); [reflexivity | discriminate]).
             destruct (read_block_some s j f idx y Er) as [g [Hg [Hy Hsz]]].
-            exists g. split; [|split; [congruence | split; [exact Hsz | destruct (Hfile j f idx b Es) as [_ [Hsz' _]]; apply Hsz'; exact Hg]]].
+            exists g. split; [|split; [congruence | split; [exact Hsz | split; [destruct (Hfile j f idx b Es) as [_ [Hsz' _]]; apply Hsz'; exact Hg|]]]].
+            2: { unfold fsz, fblk. rewrite Hg. split; [reflexivity|]. lia. }
             rewrite W8.
             + change (r_fs s5) with (r_fs (da_st a)); rewrite Ifs. assert (E : (j <? n) = true) by (apply Nat.ltb_lt; exact Hj). fold n. rewrite E.
               unfold fs_after. rewrite Es, Hfix, N.eqb_refl. cbn [andb]. rewrite Hg. reflexivity.
             + intros x Hx X. destruct (es_in x Hx) as [j2 [f2 [i2 [b2 [Ex [_ [_ Eb2]]]]]]]. subst x. cbn in X. injection X as X1 X2. subst j2.
               unfold is_bad in Eb2. rewrite Es, Er in Eb2. rewrite Eb in Eb2. discriminate. }
-        destruct Hs6 as [g [Hg [Hb [Hsz Hle]]]].
+      assert (Hj_of : forall j f idx b, slot_of c pos j = SFile f idx b -> j < n).
+      { intros j f idx b Es. destruct (Nat.lt_ge_cases j n) as [H|H]; [exact H|]. rewrite slot_of_out in Es by exact H. discriminate. }
+      split; [|split; [|split; [|split; [|split; [|split; [|split; [|split]]]]]]].
+      - (* the data *)
+        intros j f idx b Es.
+        destruct (Hs6all j f idx b Es) as [g [Hg [Hb [Hsz [Hle _]]]]].
         specialize (Q6 j (cf_name f)). rewrite P1, Hg in Q6.
         destruct (fs_find (r_fs s8) j (cf_name f)) as [g8|] eqn:E8; [|contradiction]. destruct Q6 as [Qa Qb].
         exists g8. split; [first [reflexivity | exact E8]|]. rewrite Qa, Qb. auto.
@@ -1175,7 +1203,33 @@ Section Phases.
       - rewrite Q2, P3, W2. change (r_unrec s5) with (r_unrec (da_st a)). exact Cunrec.
       - intro k. rewrite (Q5 k). apply Hd7.
       - rewrite Q4, P1, W5. change (length (r_fs s5)) with (length (r_fs (da_st a))). exact Clen.
+      - intros l p Hp. rewrite Q1, (P8 l p Hp), W1. reflexivity.
+      - rewrite Q1, P6, W1. reflexivity.
+      - (* other files *)
+        intros j' n' Hno. eapply same_data_trans; [apply Q6|]. rewrite P1, W8.
+        + change (r_fs s5) with (r_fs (da_st a)). rewrite Ifs. fold n. destruct (j' <? n) eqn:E; [|apply same_data_refl].
+          unfold fs_after. destruct (slot_of c pos j') as [|f idx b|h] eqn:Es; try apply same_data_refl.
+          assert (En : N.eqb (cf_name f) n' = false) by (apply N.eqb_neq; apply (Hno f idx b eq_refl)).
+          rewrite En, andb_false_r. apply same_data_refl.
+        + intros x Hx X. destruct (es_in x Hx) as [j2 [f2 [i2 [b2 [Ex [_ [Es2 _]]]]]]]. subst x. cbn in X. injection X as X1 X2. subst j2.
+          apply (Hno f2 i2 b2 Es2). symmetry. exact X2.
+      - (* the other blocks of the files of this stripe *)
+        intros j f idx b Es. destruct (Hs6all j f idx b Es) as [g [Hg [_ [_ [_ [Hoth [Hlo Hhi]]]]]]].
+        pose proof (Q6 j (cf_name f)) as Q. rewrite P1, Hg in Q.
+        unfold fsz at 2 3, fblk at 1. destruct (fs_find (r_fs s8) j (cf_name f)) as [g8|] eqn:E8; [|contradiction]. destruct Q as [Qa Qb].
+        rewrite Qa, Qb. auto.
     Qed.
+
+    Theorem fix_step_restores :
+      let s' := stripe_step hashf padz truncf bs nlev reduced newino now o c fs0 s pos in
+      (forall j f idx b, slot_of c pos j = SFile f idx b ->
+         exists g, fs_find (r_fs s') j (cf_name f) = Some g /\ nth idx (ff_blocks g) 0%N = vnth v j
+                   /\ (N.of_nat idx * bs + block_len bs (cf_size f) idx <= ff_size g)%N /\ (ff_size g <= cf_size f)%N)
+      /\ (forall l, l < nlev -> par_matches v (prow (r_par s') pos l) = true)
+      /\ r_unrec s' = r_unrec s
+      /\ keeps_damaged s s'
+      /\ length (r_fs s') = length (r_fs s).
+    Proof. destruct fix_step_full as [A [B [C [D [E _]]]]]. repeat split; assumption. Qed.
 
     (* ... and a following check of the stripe (a new run: fresh flags and counters) reports nothing *)
     Variable o' : copts.
